@@ -163,7 +163,9 @@ fn apply(i: &mut Inst, op: DOp) -> String {
             Some(c) => resp(i.app.wasm_sudo(Addr::unchecked(c), &NodeMsg { n: 0 })),
             None => "no-contract".into(),
         },
-        DOp::Send => resp(i.app.execute(u.clone(), BankMsg::Send { to_address: i.v.clone(), amount: vec![coin(3, "x")] }.into())),
+        // (coins of three denominations, two of them named twice: whatever the bank does with such a
+        // list, and whatever it says about it in its events, is the same on every App)
+        DOp::Send => resp(i.app.execute(u.clone(), BankMsg::Send { to_address: i.v.clone(), amount: vec![coin(1, "x"), coin(1, i.denom), coin(1, "x"), coin(1, i.denom), coin(1, "x")] }.into())),
         DOp::Mint => resp(i.app.sudo(SudoMsg::Bank(BankSudo::Mint { to_address: i.v.clone(), amount: vec![coin(5, "y")] }))),
         DOp::Delegate => resp(i.app.execute(u.clone(), StakingMsg::Delegate { validator: "val".into(), amount: coin(4, i.denom) }.into())),
         DOp::Delegate2 => resp(i.app.execute(Addr::unchecked(&i.v), StakingMsg::Delegate { validator: "val".into(), amount: coin(3, i.denom) }.into())),
